@@ -22,6 +22,7 @@ import (
 //   R-response-last    the responder is invoked after the dispatcher returned (same goroutine)
 //   R-client-drain     the per-call SSE reader returns a result before end of stream only when no handler is
 //                      registered; handlers are invoked synchronously in arrival order
+//   R-unbounded-frames the per-call SSE reader has no practical line-length limit (a notification is one line)
 //   R-params-keys      NotificationParams' MarshalJSON and UnmarshalJSON single out the same member ("_meta")
 func init() { Registry["C10"] = checkC10 }
 
@@ -295,6 +296,10 @@ func c10Client(c *Ctx) {
 		return
 	}
 	fn := per.fn
+	// a notification is one data line: the reader must not impose a line-length limit
+	c.R.Check((per.scanner == nil && per.readerOK) || (per.scanner != nil && !per.limited), "R-unbounded-frames", "per-call SSE reader "+fname(fn), c.Pos(fn.Pos()),
+		"lines are read without a practical length limit (bufio.Reader, or a Scanner whose limit is at least 1 GiB)",
+		sprintf("%s reads the call's SSE stream with a length-limited bufio.Scanner: a notification (or result) longer than the token limit ends the stream with ErrTooLong; it and everything after it are never delivered", fname(fn)))
 	pd := flow.NewPostDom(fn)
 	// returns of a non-nil result inside the read loop
 	n := 0
@@ -322,6 +327,15 @@ func c10Client(c *Ctx) {
 						}
 					}
 				}
+			}
+			// end of stream: scanner.Scan() returned false
+			if u, ok := cond.(*ssa.UnOp); ok && u.Op == token.NOT {
+				cond = u.X
+				if sc, ok := cond.(*ssa.Call); ok && ir.CallName(sc) == "(*bufio.Scanner).Scan" && g.Branch {
+					okGuard = true
+				}
+			} else if sc, ok := cond.(*ssa.Call); ok && ir.CallName(sc) == "(*bufio.Scanner).Scan" && !g.Branch {
+				okGuard = true
 			}
 			// end of stream: err == io.EOF
 			if bin, ok := cond.(*ssa.BinOp); ok && bin.Op == token.EQL && g.Branch {
